@@ -173,6 +173,154 @@ def opM5 (args obs : List String) : P String := do
     | _ => pure (reply false false [showList toString model])
   | _ => throw "M5: arity"
 
+/-- elementwise with NumPy broadcasting of a length-1 operand. -/
+def bcast {α β γ} (g : α → β → γ) : List α → List β → Option (List γ)
+  | [a], bs => some (bs.map (g a))
+  | as, [b] => some (as.map (fun a => g a b))
+  | as, bs => if as.length = bs.length then some (List.zipWith g as bs) else none
+
+def anyB (l : List Bool) : Bool := l.any id
+
+/-- result of a binary operation into target `t` under `(r, o)`: codes and the overflow/underflow flags. -/
+def arithInto (op : BinOp) (raw : Bool) (t : Fmt) (r : Rounding) (o : Overflow) (x y : Fmt)
+    (as bs : List Int) : Option (List Int × Bool × Bool) := do
+  let ks ← bcast (fun a b =>
+      if raw then roundR r (rawKernel op t.nfrac x y a b)
+      else roundR r (scale (exactOp op (valueOf x a) (valueOf y b)) t.nfrac)) as bs
+  let cs := ks.map (ovf o t)
+  pure (cs, anyB (ks.map (fun k => decide (t.hi < k))), anyB (ks.map (fun k => decide (k < t.lo))))
+
+def showRes (t : Fmt) (res : List Int × Bool × Bool) : List String :=
+  [showSigned t.signed, toString t.nword, toString t.nfrac, showList toString res.1, showBool res.2.1, showBool res.2.2]
+
+def isExc (obs : List String) : Bool :=
+  match obs with
+  | [t] => t.startsWith "EXC:"
+  | _ => false
+
+def zeroDiv (op : BinOp) (bs : List Int) : Bool :=
+  (op == .truediv || op == .floordiv || op == .mod) && bs.any (· == 0)
+
+/-- `AR <op> <policy> <method> <route> <fx> <fy> <r> <o> [a..] [b..] | s n f [codes] ov un`
+binary operation, result format from the sizing policy, config of the first operand. -/
+def opAR (args obs : List String) : P String := do
+  match args with
+  | [op, pol, meth, _route, sx, nx, fx, sy, ny, fy, r, o, as, bs] =>
+    let op ← pBinOp op
+    let pol ← pPolicy pol
+    let x ← pFmt sx nx fx
+    let y ← pFmt sy ny fy
+    let r ← pRounding r
+    let o ← pOverflow o
+    let as ← pList pInt as
+    let bs ← pList pInt bs
+    if zeroDiv op bs then return "SKIP"
+    match resultFmt pol op x y with
+    | none => pure (reply (isExc obs) (isExc obs) ["ERR"])
+    | some t =>
+      match arithInto op (meth == "raw") t r o x y as bs with
+      | none => throw "AR: shapes"
+      | some res => pure (functional (showRes t res) obs)
+  | _ => throw "AR: arity"
+
+/-- `AO <op> <kind=out|outlike> <method> <route> <fx> <fy> <ft> <rt> <ot> [a..] [b..] | s n f [codes] ov un`
+result stored into an explicit `out` object or a fresh object like `out_like`; governing config is the
+target's `(rt, ot)`. A signed result cannot go into an unsigned target (ValueError). -/
+def opAO (args obs : List String) : P String := do
+  match args with
+  | [op, kind, meth, _route, sx, nx, fx, sy, ny, fy, st, nt, ft, r, o, as, bs] =>
+    let op ← pBinOp op
+    let x ← pFmt sx nx fx
+    let y ← pFmt sy ny fy
+    let t ← pFmt st nt ft
+    let r ← pRounding r
+    let o ← pOverflow o
+    let as ← pList pInt as
+    let bs ← pList pInt bs
+    if zeroDiv op bs then return "SKIP"
+    if (x.signed || y.signed) && !t.signed then
+      pure (reply (isExc obs) (isExc obs) ["ERR"])
+    else
+      -- `out_like` always computes on values (n_frac is None → repr path)
+      let raw := meth == "raw" && kind == "out"
+      match arithInto op raw t r o x y as bs with
+      | none => throw "AO: shapes"
+      | some res => pure (functional (showRes t res) obs)
+  | _ => throw "AO: arity"
+
+/-- `AC <op> <side=l|r> <insize=same> <const_sizing> <method> <fx> <r> <o> [a..] <c> | s n f [codes] ov un`
+operation with a constant: the constant is first converted like the Fxp operand (`op_input_size='same'`,
+i.e. `Fxp(c, like=x)`: quantized into x's format under x's config), then the operation is sized by
+`const_op_sizing`. -/
+def opAC (args obs : List String) : P String := do
+  match args with
+  | [op, side, _insize, csz, meth, sx, nx, fx, r, o, as, c] =>
+    let op ← pBinOp op
+    let pol ← pPolicy csz
+    let x ← pFmt sx nx fx
+    let r ← pRounding r
+    let o ← pOverflow o
+    let as ← pList pInt as
+    let c ← pRat c
+    let b := quantize x r o c
+    let (la, lb) := if side == "l" then (as, [b]) else ([b], as)
+    if zeroDiv op lb then return "SKIP"
+    match resultFmt pol op x x with
+    | none => pure (reply (isExc obs) (isExc obs) ["ERR"])
+    | some t =>
+      match arithInto op (meth == "raw") t r o x x la lb with
+      | none => throw "AC: shapes"
+      | some res => pure (functional (showRes t res) obs)
+  | _ => throw "AC: arity"
+
+/-- `DV <op=truediv|floordiv|mod> <method> <route> <fx> <fy> <r> <o> [a..] [b..] | s n f [codes] ov un`
+division family with optimal sizing. `truediv` is judged relationally (exact if representable, else one of
+the two neighbours, never out of range, no flag); `floordiv` and `mod` functionally. -/
+def opDV (args obs : List String) : P String := do
+  match args with
+  | [op, meth, _route, sx, nx, fx, sy, ny, fy, r, o, as, bs] =>
+    let op ← pBinOp op
+    let x ← pFmt sx nx fx
+    let y ← pFmt sy ny fy
+    let r ← pRounding r
+    let o ← pOverflow o
+    let as ← pList pInt as
+    let bs ← pList pInt bs
+    if zeroDiv op bs then return "SKIP"
+    match resultFmt .optimal op x y with
+    | none => pure (reply (isExc obs) (isExc obs) ["ERR"])
+    | some t =>
+      match arithInto op (meth == "raw") t r o x y as bs with
+      | none => throw "DV: shapes"
+      | some res =>
+        if op == .truediv then
+          match obs with
+          | [os, on, of, cs, ov, un] =>
+            match pList pInt cs, bcast (fun a b => scale (valueOf x a / valueOf y b) t.nfrac) as bs with
+            | .ok cs, some qs =>
+              let fmtOk := [os, on, of] == [showSigned t.signed, toString t.nword, toString t.nfrac]
+              let s := fmtOk && ov == "0" && un == "0" && zipAll (fun q c => Chk.c09quot t q c) qs cs
+              let a := if meth == "raw" then decide (showRes t res = obs) else s
+              pure (reply a s (showRes t res))
+            | _, _ => pure (reply false false (showRes t res))
+          | _ => pure (reply false false (showRes t res))
+        else pure (functional (showRes t res) obs)
+  | _ => throw "DV: arity"
+
+/-- `UN <op=neg|pos|abs> <fx> [codes] | s n f [codes]` — unary operators build a default-config object. -/
+def opUN (args obs : List String) : P String := do
+  match args with
+  | [op, sx, nx, fx, cs] =>
+    let x ← pFmt sx nx fx
+    let cs ← pList pInt cs
+    let g ← match op with
+      | "neg" => pure (negM x)
+      | "pos" => pure (posM x)
+      | "abs" => pure (absM x)
+      | _ => throw "UN: op"
+    pure (functional [showSigned x.signed, toString x.nword, toString x.nfrac, showList toString (cs.map g)] obs)
+  | _ => throw "UN: arity"
+
 def dispatch (op : String) (args obs : List String) : P String :=
   match op with
   | "Q1" => opQ1 args obs
@@ -183,6 +331,11 @@ def dispatch (op : String) (args obs : List String) : P String :=
   | "R5" => opR5 args obs
   | "I5" => opI5 args obs
   | "M5" => opM5 args obs
+  | "AR" => opAR args obs
+  | "AO" => opAO args obs
+  | "UN" => opUN args obs
+  | "AC" => opAC args obs
+  | "DV" => opDV args obs
   | _ => throw s!"unknown op {op}"
 
 end Fxp.Ops
